@@ -514,7 +514,7 @@ class StreamRun:
         self.step = 0
         self.closed = False
         self.streams = []
-        self.wire = []        # (stream no, message id, request, kind, (p, e))
+        self.wire = []        # [stream no, message id, request, kind, (p, e), live]
         self.pending = []     # (message id, response, payload)
         self.progs, self.jobs, self.fails = set(pre_progs), set(pre_jobs), set(fails)
         self.pre_jobs0 = set(pre_jobs)
@@ -585,7 +585,7 @@ class StreamRun:
             return
         if stream_no != len(self.streams) - 1:
             self.anomalies.append(('request-on-dead-stream', self.step, mid))
-        self.wire.append((stream_no, mid, r, kind, pj))
+        self.wire.append([stream_no, mid, r, kind, pj, True])
         self.owner.setdefault(mid, pj[1])
         self.reqs.append((self.step, pj[1], mid, kind))
 
@@ -667,10 +667,11 @@ class StreamRun:
             fut.add_done_callback(lambda f, e=e: self.on_done(e, f))
         elif k in ('Process', 'RejectReq'):
             if ev[1] < len(self.wire):
-                _, mid, r, kind, pj = self.wire.pop(ev[1])
+                _, mid, r, kind, pj, live = self.wire.pop(ev[1])
                 payload = self.serve(kind, pj) if k == 'Process' else ('err', ev[2])
-                self.pending.append((mid, self.response(mid, pj, payload), payload))
-                self.replies.append((self.step, mid, payload))
+                if live:     # a request overtaken by a stream break is still handled, but its response goes nowhere
+                    self.pending.append((mid, self.response(mid, pj, payload), payload))
+                    self.replies.append((self.step, mid, payload))
         elif k in ('Respond', 'RespondCancel'):
             if ev[1] < len(self.pending):
                 mid, resp, payload = self.pending.pop(ev[1])
@@ -687,14 +688,16 @@ class StreamRun:
             exc = self.exn_classes[ev[1]]('stream broke')
             self.live_exc[self.step] = exc
             loop.call_soon(self.streams[-1].put_nowait, exc) if self.streams else None
-            self.wire.clear()
+            for w in self.wire:
+                w[5] = False
             self.pending.clear()
         elif k == 'Cancel':
             if ev[1] < len(self.futs):
                 self.futs[ev[1]].cancel()
         elif k == 'Stop':
             self.manager.stop()
-            self.wire.clear()
+            for w in self.wire:
+                w[5] = False
             self.pending.clear()
         else:
             raise ValueError(ev)
@@ -766,7 +769,7 @@ def stream_step_oracles(run, ev, before):
             bad.append(('once', f'submit {e} returned a result but its job was created {run.creates.count(e)} times'))
     # every execution still running has its current request subscribed and in flight (nothing lost)
     subs = run.subs[-1]
-    inflight = {mid for _, mid, _, _, _ in run.wire} | {mid for mid, _, _ in run.pending}
+    inflight = {w[1] for w in run.wire if w[5]} | {mid for mid, _, _ in run.pending}
     for e in range(len(run.futs)):
         if run.running(e):
             mine = [mid for s, x, mid, kind in run.reqs if x == e]
@@ -963,6 +966,7 @@ def fault_case(mods, rng, sprog, sjob, faults):
     it = iter(faults)
     todo = []
     n = [0]
+    used = []
 
     def chooser(run):
         if todo:
@@ -973,25 +977,34 @@ def fault_case(mods, rng, sprog, sjob, faults):
             return None
         n[0] += 1
         f = next(it, ('NoFault',))
+        used.append(f)
+        live = len(run.wire) - 1          # the current request is the last one on the wire, the overtaken ones precede it
         if f[0] == 'NoFault':
             todo.append(('Respond', 0))
-            return ('Process', 0)
+            return ('Process', live)
         if f[0] == 'Reject':
             todo.append(('Respond', 0))
-            return ('RejectReq', 0, f[1])
+            return ('RejectReq', live, f[1])
         if f[0] == 'BreakBefore':
             return ('Break', f[1])
+        if f[0] == 'Late':
+            return ('Process', f[1] if f[1] < live else 99)
         todo.append(('Break', f[1]))
-        return ('Process', 0)
+        return ('Process', live)
     c = run_stream_case(mods, [0] if sprog else [], [0] if sjob else [], (), chooser)
-    c['faults'] = list(faults)
+    c['faults'] = used[:len(faults)]
     c['sprog'], c['sjob'] = sprog, sjob
+    if not c['dones']:
+        c['bad'].append(('termination', f'the execution did not finish within 6 undisturbed exchanges after the faults {list(faults)} '
+                                        f'(requests so far: {[k for _, _, _, k in c["reqs"]]})'))
     return c
 
 
 def _lit_fault(f):
     if f[0] == 'NoFault':
         return 'NoFault'
+    if f[0] == 'Late':
+        return f'(Late {f[1]})'
     if f[0] == 'Reject':
         return f'(Reject {f[1]})'
     return f'({f[0]} X{f[1]})'
@@ -1027,7 +1040,7 @@ def fault_compare(ctx, cases):
 def all_faults():
     return ([('NoFault',)] + [('BreakBefore', x) for x in ('ServiceUnavailable', 'NotFound')]
             + [('BreakAfter', x) for x in ('InternalServerError', 'RuntimeError')]
-            + [('Reject', c) for c in STATE_CODES + ['INTERNAL']])
+            + [('Reject', c) for c in STATE_CODES + ['INTERNAL']] + [('Late', 0)])
 
 
 def stream_streams(ctx, mods):
@@ -1042,9 +1055,10 @@ def stream_streams(ctx, mods):
             for fs in itertools.product(alphabet, repeat=L):
                 fcases.append(fault_case(mods, rng, sprog, sjob, fs))
     for _ in range(150 if quick else 3000):
-        L = rng.randint(3, 7)
+        L = rng.randint(3, 8)
         fs = [rng.choice(alphabet + [('BreakBefore', x) for x in RETRYABLE] + [('BreakAfter', x) for x in RETRYABLE]
-                         + [('BreakAfter', rng.choice(FATAL)), ('Reject', rng.choice(OTHER_CODES))]) for _ in range(L)]
+                         + [('BreakAfter', rng.choice(FATAL)), ('Reject', rng.choice(OTHER_CODES)), ('Late', 0), ('Late', 1)])
+              for _ in range(L)]
         fcases.append(fault_case(mods, rng, rng.random() < 0.4, rng.random() < 0.25, fs))
     for c in fcases:
         c['stream'] = 'stream_faults'
@@ -1072,9 +1086,10 @@ def stream_streams(ctx, mods):
                   sample=dict(pre_programs=c['pre_progs'], pre_jobs=c['pre_jobs'], events=c['events'], requests=c['reqs'],
                               outcomes=c['dones'], cancel_rpcs=c['cancels']))
         for kind, what in c['bad']:
+            extra = dict(kind='stream_faults', faults=c['faults'], sprog=c['sprog'], sjob=c['sjob']) if 'faults' in c else {}
             ctx.violation(f'stream:{kind}', f'StreamManager: {what}',
-                          dict(kind='stream', pre_progs=c['pre_progs'], pre_jobs=c['pre_jobs'], fails=c['fails'],
-                               events=c['events'], failed=kind))
+                          dict(dict(kind='stream', pre_progs=c['pre_progs'], pre_jobs=c['pre_jobs'], fails=c['fails'],
+                                    events=c['events'], failed=kind), **extra))
     for idx in fault_compare(ctx, fcases):
         c = fcases[idx]
         ctx.mark_broken('correspondence:stream_faults',
@@ -1089,6 +1104,12 @@ def stream_streams(ctx, mods):
 
 
 def replay_stream(mods, data):
+    if data.get('kind') == 'stream_faults':
+        import random
+        c = fault_case(mods, random.Random(0), data['sprog'], data['sjob'], [tuple(f) for f in data['faults']])
+        print('requests:', c['reqs'])
+        print('outcomes:', c['dones'], 'oracle failures:', c['bad'])
+        return not c['bad']
     evs = [tuple(e) for e in data['events']]
     it = iter(evs)
     c = run_stream_case(mods, data['pre_progs'], data['pre_jobs'], data['fails'], lambda run: next(it, None))
@@ -1123,7 +1144,7 @@ def replay(ctx, data):
     cirq = mods['cirq']
     if data.get('kind') == 'collector':
         return replay_collector(cirq, data)
-    if data.get('kind') == 'stream':
+    if data.get('kind') in ('stream', 'stream_faults'):
         return replay_stream(mods, data)
     print('nothing to replay for kind', data.get('kind'))
     return False
